@@ -105,7 +105,7 @@ class LocatableOverlapIterator:
             Callable[[Locatable, Locatable], bool],
         ]
         if not by_barcodes:
-            _sort_order = Coordinate(fasta_index=fasta_index)
+            _sort_order = Coordinate(fasta_index=fasta_index, contigs=contigs)
             self._overlap_f = self.__overlaps
         else:
             _sort_order = BarcodesAndCoordinate(
